@@ -271,3 +271,74 @@ func TestTimers(t *testing.T) {
 		t.Fatal("undo failed")
 	}
 }
+
+func TestEmbeddedReceivesBecomeAwait(t *testing.T) {
+	dir := t.TempDir()
+	w := func(rel, src string) {
+		os.MkdirAll(filepath.Dir(filepath.Join(dir, rel)), 0755)
+		os.WriteFile(filepath.Join(dir, rel), []byte(src), 0644)
+	}
+	w("go.mod", "module example.com/x\n\ngo 1.11\n")
+	w("a.go", `package x
+
+type req struct{ done chan error }
+
+func Wait(r *req) error {
+	return <-r.done
+}
+
+func Both(c chan int, d <-chan string) (int, bool, string) {
+	if v, ok := <-c; ok {
+		return v, true, <-d
+	}
+	var s, ok2 = <-d
+	_ = ok2
+	x := <-c
+	select {
+	case y := <-c:
+		return y, false, s
+	default:
+	}
+	return x + f(<-c), false, s
+}
+
+func f(i int) int { return i }
+`)
+	w("x_test.go", `package x
+
+import "testing"
+
+func TestWait(t *testing.T) {
+	r := &req{done: make(chan error, 1)}
+	r.done <- nil
+	if Wait(r) != nil {
+		t.Fatal()
+	}
+	c, d := make(chan int, 4), make(chan string, 2)
+	c <- 1
+	c <- 2
+	c <- 3
+	d <- "a"
+	d <- "b"
+	v, ok, s := Both(c, d)
+	if v != 1 || !ok || s != "a" {
+		t.Fatal(v, ok, s)
+	}
+}
+`)
+	if _, err := Library(dir); err != nil {
+		t.Fatal(err)
+	}
+	a, _ := os.ReadFile(filepath.Join(dir, "a.go"))
+	for _, want := range []string{"return zzsimrt.Await(r.done)", "v, ok := zzsimrt.AwaitOK(c)", "zzsimrt.Await(d)", "f(zzsimrt.Await(c))", "case y := <-c:", "x := <-c"} {
+		if !strings.Contains(string(a), want) {
+			t.Fatalf("missing %q in\n%s", want, a)
+		}
+	}
+	cmd := exec.Command("go", "test", "-race", "./...")
+	cmd.Dir = dir
+	cmd.Env = append(os.Environ(), "GOFLAGS=-mod=mod", "GOPROXY=off", "GOSUMDB=off", "GOTOOLCHAIN=local")
+	if out, err := cmd.CombinedOutput(); err != nil {
+		t.Fatalf("%v\n%s\n%s", err, out, a)
+	}
+}
